@@ -16,7 +16,10 @@ RULE = ("relayloop: scripted header schedules (gaps, repeats, lower heads, heads
         "10^3..10^5 blocks, events placed just beyond cursor + 1000/2000/5000/10000 and on the last confirmed block); one in four has ONE "
         "range with 25-70 events, several per block, laid out so that every multiple of 10/16/20/25/32/50 events falls inside a block, "
         "killed on / after the k-th broadcast or right after the k-th cursor write of the iteration (k = 1..4; the child reacts to however "
-        "many broadcasts and LevelDB writes the loop under test performs per iteration), restarted and continued; non-trivial = distinct schedule "
+        "many broadcasts and LevelDB writes the loop under test performs per iteration), restarted and continued; one directed schedule "
+        "and one random schedule in twelve have a SLOW log query on a range with events: the fake node holds the eth_getLogs answer back "
+        "for 26 s (or until the loop visibly moves on without it) and then answers with the correct logs, or with an error, or answers an "
+        "error first and is slow on a retry if the loop retries; non-trivial = distinct schedule "
         "(every schedule has at least 4 header deliveries that reach the log query)")
 TRUSTED_BASE = [
     "Lean 4.33.0 kernel; axioms propext, Classical.choice, Quot.sound (audited per theorem on every run)",
